@@ -394,6 +394,11 @@ class CircuitWorld(World):
             c["after_reject"] = True
             self.note("rejected", g["label"])
             return
+        if g["label"] == "IDEN" and len(c["obj"].gates) == len(c["applied"]):
+            # `circ.iden(i)` is a no-op that is not even recorded: gate
+            # indices (set_params) follow the circuit's own record
+            self.note("iden_unrecorded")
+            return
         c["applied"].append(g)
         self.ngates += 1
         self.stats.probe("gates_accepted")
